@@ -32,6 +32,12 @@ func avsOp(p *PRNG, cfg Config, early bool) Op {
 		if p.Chance(1, 2) {
 			op.E = 0
 		}
+		if p.Chance(1, 8) {
+			// an operator registers itself as an AVS (with a minimum it may or may not meet)
+			op.A = 100 + p.Intn(cfg.NOps)
+			op.C = op.A
+			op.E = []int{0, 2, 3, 4}[p.Intn(4)]
+		}
 		if p.Chance(1, 4) {
 			op.B = 1 + p.Intn(7)
 		}
@@ -89,6 +95,9 @@ func avsOp(p *PRNG, cfg Config, early bool) Op {
 		}
 		if p.Chance(1, 6) {
 			op.M = 1
+		}
+		if p.Chance(1, 4) && op.C < cfg.NOps {
+			op.A = 100 + op.C // the operator calls the precompile itself, as the AVS it registered
 		}
 		return op
 	case 5:
@@ -251,10 +260,11 @@ type avsGen struct {
 	opted  map[int]map[int]int64 // avs -> operator -> epoch estimate at opt-in
 	tasks  []*avsGenTask
 	ntasks map[int]int
+	self   map[int]bool // operators that registered themselves as an AVS
 }
 
 func newAVSGen(cfg Config) *avsGen {
-	return &avsGen{cfg: cfg, regd: map[int]int{}, regAt: map[int]int64{}, bls: map[int]bool{}, opted: map[int]map[int]int64{}, ntasks: map[int]int{}}
+	return &avsGen{cfg: cfg, regd: map[int]int{}, regAt: map[int]int64{}, bls: map[int]bool{}, opted: map[int]map[int]int64{}, ntasks: map[int]int{}, self: map[int]bool{}}
 }
 
 func (g *avsGen) epochDur(choice int) int64 {
@@ -273,6 +283,9 @@ func (g *avsGen) epochOf(avs int, elapsedNs int64) int64 {
 
 // note records the probable effect of an operation the generator emits.
 func (g *avsGen) note(op Op, elapsed int64) Op {
+	if op.A >= 100 && (op.K == "avsreg" || op.K == "avsupd" || op.K == "avsdereg" || op.K == "avsopt" || op.K == "avstask") {
+		return op // an operator acting as its own AVS: outside the guide's three identities
+	}
 	a := ((op.A % 3) + 3) % 3
 	switch op.K {
 	case "avsreg":
@@ -337,6 +350,16 @@ func (g *avsGen) next(p *PRNG, elapsed int64) Op {
 		if _, ok := g.bls[o]; !ok && p.Chance(1, 2) {
 			return g.note(Op{K: "blsreg", C: o}, elapsed)
 		}
+	}
+	if p.Chance(1, 14) {
+		// an operator as its own AVS: register (with a minimum it may not meet), then opt itself in
+		// through the precompile (the one precompile opt-in whose operator is the signer)
+		k := p.Intn(cfg.NOps)
+		if !g.self[k] {
+			g.self[k] = true
+			return Op{K: "avsreg", A: 100 + k, C: 100 + k, D: p.Intn(2), E: []int{0, 2, 3, 4}[p.Intn(4)]}
+		}
+		return Op{K: "avsopt", A: 100 + k, C: k, M: []int{0, 0, 0, 1}[p.Intn(4)]}
 	}
 	var avss []int
 	for a := 0; a < 3; a++ {
